@@ -189,7 +189,7 @@ func genC15Literal(g *Gen) {
 	g.Exhaust = append(g.Exhaust, fmt.Sprintf("literal: all TailBitmap{Offset,Words} with 0..3 words over {0, all-ones, all-ones minus bit 0, all-ones minus bit 63, bits 0 and 63} for Offset in {0,64}, followed by every sequence of 0..%d calls of a 9-call alphabet, Get and Get1 probed at every word-edge and set-edge position after every call", depth))
 
 	// (L2) structured random literals and histories
-	nh := g.N(1200, 20000)
+	nh := g.N(1200, 12000)
 	for k := 0; k < nh; k++ {
 		o := int64(64 * g.R.Pick(0, 0, 1, 2, 10, 1000, 1023, 1024, 1025, 2048, 1<<20, 1<<33))
 		n := g.R.Range(0, 6)
